@@ -73,6 +73,9 @@ func cmdVerify(args []string) {
 			if fn.Synthetic != "" && !strings.HasPrefix(fn.Synthetic, "instance of") && fn.Synthetic != "package initializer" {
 				continue
 			}
+			if fn.Parent() != nil && con == nil && !eng.spawnedUnjoined(fn) {
+				continue
+			}
 			c := eng.verifyFunc(fn, con)
 			fmt.Printf("== %s: %d obligations, %d paths, contract=%v\n", c.name, len(c.obls), c.paths, con != nil)
 			for u := range c.unsup {
